@@ -338,8 +338,17 @@ def transition(
 
     Returns:
         Tuple[PureSnapshot, List[ActionDefinition]]: The resulting snapshot
-        and the actions that would have run.
+        and the actions that would have run. A snapshot whose status is not
+        `"active"` is returned unchanged (as a copy) with no actions.
     """
+    # 🏁 A machine that has completed or failed ignores events, exactly as
+    #    `send()` does on a real interpreter. Rebuilding the probe as
+    #    "running" would revive it and process the event.
+    if snapshot.status != "active":
+        unchanged = copy.copy(snapshot)
+        unchanged.context = copy.deepcopy(snapshot.context)
+        return unchanged, []
+
     probe, recorded = _build_probe(machine, snapshot, None)
     probe.status = "running"
 
